@@ -84,7 +84,7 @@ CHECKS = {
                 note="Sequentially consistent memory; libc calls are atomic to the scheduler; 32-byte vector accesses are not instrumented (TSan pass covers them)."),
     "C19": dict(level="exploration", engine="ard", design_ref="4/C19", technique="bounded-exhaustive enumeration of input families, operation histories and cut sequences against the C library",
                 text="The Arduino sources compile unchanged with the host g++ (portable path). All 11 block-cipher classes run the BG/BYTE/PAIR/BIT families against the C library; the four tweakable classes and Mantis8 run every history up to depth 4 (thorough 5) over {setKey, setTweak (values, NULL, wrong length), swapModes, clear+setKey, setKey(wrong length)} against the C library keyed afresh with the last key / tweak / mode; CTR<T> over the five Skinny-128 classes runs every sequence of up to 3 (4) encrypt lengths from LENS(16) for IVs with carries through every byte in lock step with skinny128_ctr_* on the generic back end.",
-                note="The AVR inline-assembly path is out of reach; use before the first setKey and setCounterSize < 16 have no C counterpart."),
+                note="The AVR inline-assembly path is out of reach; use before the first setKey has no C counterpart; setCounterSize (before setKey, between setKey and setIV, after setIV; sizes 16, 15, 4, 2, 1) is checked against the C block function under the documented increment rule."),
     "C20": dict(level="exploration", engine="cli", design_ref="4/C20", technique="enumeration of tool invocations (file lengths x key/counter/tweak lengths x modes) against direct library calls",
                 text="The three tools built by examples/Makefile run as subprocesses over file lengths around the block size and the 1024-byte I/O chunk x both block sizes x legal key lengths (incl. in-between) x absent / full / short counters and tweaks x encrypt / -d; outputs must be byte-identical to a separate oracle program that makes the library calls directly, and running the tool again must restore the input (whole blocks for ecb / tweak). An invalid-option menu (39 invocations) must exit non-zero and create no output file.",
                 note="Mid-file I/O errors are not injected."),
